@@ -119,6 +119,40 @@ func newEnv(rng *rand.Rand, res *worker.Result, o envOpts) (*env, error) {
 			v.repo.HandleWarning = func(remote.Warning) {}
 			labels = append(labels, "warn")
 		}
+		if rng.IntN(3) == 0 {
+			v.repo.MaxMetadataBytes = 1 << 20
+			labels = append(labels, "maxmeta")
+		}
+		if rng.IntN(2) == 0 {
+			// the other entry point: a Repository derived from a Registry that
+			// carries the same options must behave exactly like one built with
+			// NewRepository and configured directly
+			rg, err := remote.NewRegistry(v.host)
+			if err != nil {
+				h.Close()
+				return nil, err
+			}
+			rg.Client = v.repo.Client
+			rg.PlainHTTP = v.repo.PlainHTTP
+			rg.ManifestMediaTypes = v.repo.ManifestMediaTypes
+			rg.TagListPageSize = v.repo.TagListPageSize
+			rg.ReferrerListPageSize = v.repo.ReferrerListPageSize
+			rg.MaxMetadataBytes = v.repo.MaxMetadataBytes
+			rg.SkipReferrersGC = v.repo.SkipReferrersGC
+			rg.HandleWarning = v.repo.HandleWarning
+			derived, err := rg.Repository(ctx, repoName)
+			if err != nil {
+				h.Close()
+				return nil, err
+			}
+			rr, ok := derived.(*remote.Repository)
+			if !ok {
+				h.Close()
+				return nil, fmt.Errorf("Registry.Repository returned %T", derived)
+			}
+			v.repo = rr
+			labels = append(labels, "via-registry")
+		}
 		if rng.IntN(4) == 0 {
 			// capability stated up front, as the registry really is
 			if err := v.repo.SetReferrersCapability(v.prof.ReferrersAPI); err != nil {
